@@ -274,6 +274,15 @@ def h_concrete(ctx, case):
         A0 = teneva.func_int(teneva.mul(Y, 0.))
         _wf_finite(ctx, case + '_zero', A0, [4, 5])
         ctx.claim(case + '_value', abs(teneva.func_get(np.array([[0.3, -0.2]]), A, -1., 1.)[0] - 2.) < 1e-12)
+        # coefficient tensors with a mode of size 1 (a function that is constant along that mode)
+        A1 = [np.ones((1, 1, 2)) * 3., np.arange(1., 7.).reshape(2, 3, 1)]
+        for m_ in (None, [1, 3], [1, 4], [2, 3]):
+            Yg = teneva.func_gets(A1, m_)
+            _wf_finite(ctx, case + '_mode1_gets', Yg, [G.shape[1] for G in Yg])
+            ctx.claim(case + '_mode1_stats_finite', bool(np.isfinite(teneva.sum(Yg)) and np.isfinite(teneva.norm(Yg)) and np.isfinite(teneva.mean(Yg))))
+        ctx.claim(case + '_mode1_value_finite', bool(np.all(np.isfinite(teneva.func_get(np.array([[0.3, -0.2]]), A1, -1., 1.)))))
+        for Yd in (teneva.rand([3, 4], 2, seed=1), teneva.rand([1, 4], 1, seed=2), [np.zeros((1, 2, 1)), np.zeros((1, 2, 1))]):
+            ctx.claim(case + '_erank_finite_2d', bool(np.isfinite(teneva.erank(Yd))))
     else:
         raise KeyError(case)
 
